@@ -22,6 +22,8 @@
 import TypelibModel.Model.Routine
 import TypelibModel.Model.Leaf
 import TypelibModel.Lemmas.Core
+import TypelibModel.Lemmas.RoundTrip
+import TypelibModel.Props.Dispatch
 namespace Typelib.C05
 open Typelib
 
@@ -300,6 +302,354 @@ theorem stepM (env : Env) (L : Leaves) (D : Nat → Ty → Val → R Val) (K : T
     cases hcls : env.cls c with
     | none => rfl
     | some ci => simp only [fieldsOf, hcls]; rfl
+
+
+/-! ### Soundness of the validator -/
+
+/-- **Translation validation, unmarshal side.**  A routine tree the validator accepts for the
+    (wrapper-free) annotation `t` computes `unmarshal(t, x)` on every input `x`, at every fuel. -/
+theorem adequate_sound_unmarshal (env : Env) (L : Leaves) (t : Ty) (r : Routine)
+    (h : adequateU env t r = true) : ∀ n x, runU env L n r x = um env L n t x := by
+  have key : ∀ n t r, adequate .u anyTarget env t r = true → runUW env L (um env L) n r = um env L n t := by
+    intro n
+    induction n with
+    | zero => intro t r _; funext x; simp [runUW, um]
+    | succ n ih =>
+      intro t r h
+      funext x
+      cases hd : r.isDelayed with
+      | false => exact stepU env L (um env L) anyTarget n ih t r h hd x
+      | true =>
+        cases r <;> simp [Routine.isDelayed] at hd
+        rename_i t'
+        simp only [adequate, Bool.and_eq_true] at h
+        rw [← tyBeq_eq _ _ h.1]
+        simp [runUW]
+  intro n x
+  exact congrFun (key n t r h) x
+
+/-- **Translation validation, marshal side.** -/
+theorem adequate_sound_marshal (env : Env) (L : Leaves) (t : Ty) (r : Routine)
+    (h : adequateM env t r = true) : ∀ n x, runM env L n r x = mar env L n t x := by
+  have key : ∀ n t r, adequate .m anyTarget env t r = true → runMW env L (mar env L) n r = mar env L n t := by
+    intro n
+    induction n with
+    | zero => intro t r _; funext x; simp [runMW, mar]
+    | succ n ih =>
+      intro t r h
+      funext x
+      cases hd : r.isDelayed with
+      | false => exact stepM env L (mar env L) anyTarget n ih t r h hd x
+      | true =>
+        cases r <;> simp [Routine.isDelayed] at hd
+        rename_i t'
+        simp only [adequate, Bool.and_eq_true] at h
+        rw [← tyBeq_eq _ _ h.1]
+        simp [runMW]
+  intro n x
+  exact congrFun (key n t r h) x
+
+theorem hasKey_mem {g : RGraph} {t : Ty} (h : g.hasKey t = true) : ∃ r, (t, r) ∈ g := by
+  simp only [RGraph.hasKey, List.any_eq_true] at h
+  obtain ⟨e, he, hb⟩ := h
+  obtain ⟨t', r⟩ := e
+  have := tyBeq_eq _ _ hb
+  simp only at this
+  subst this
+  exact ⟨r, he⟩
+
+/-- **Routine graphs, unmarshal side.**  `D n t x` is whatever calling the routine the library
+    resolves for the delayed target `t` returns.  If the finite graph `g` (root and every delayed
+    target ↦ its tree) passes the validator and `D` runs, for each key, that key's tree, then every
+    validated tree — delayed nodes included — computes the denotation of its annotation.  This
+    discharges the assumption built into `runU` (a `Delayed` node computes `um` of its target). -/
+theorem graph_sound_unmarshal (env : Env) (L : Leaves) (D : Nat → Ty → Val → R Val) (g : RGraph)
+    (hg : graphOk .u env g = true)
+    (hD : ∀ t r, (t, r) ∈ g → ∀ n x, D n t x = runUW env L D n r x) :
+    ∀ n t r, adequate .u g.hasKey env t r = true → ∀ x, runUW env L D n r x = um env L n t x := by
+  have key : ∀ n t r, adequate .u g.hasKey env t r = true → runUW env L D n r = um env L n t := by
+    intro n
+    induction n with
+    | zero => intro t r _; funext x; simp [runUW, um]
+    | succ n ih =>
+      intro t r h
+      funext x
+      cases hd : r.isDelayed with
+      | false => exact stepU env L D g.hasKey n ih t r h hd x
+      | true =>
+        cases r <;> simp [Routine.isDelayed] at hd
+        rename_i t'
+        simp only [adequate, Bool.and_eq_true] at h
+        obtain ⟨r', hmem⟩ := hasKey_mem h.2
+        have hent := (List.all_eq_true.mp hg) (t, r') hmem
+        simp only [Bool.and_eq_true, Bool.not_eq_eq_eq_not, Bool.not_true] at hent
+        have : runUW env L D (n + 1) (.delayed t') x = D (n + 1) t x := by
+          rw [← tyBeq_eq _ _ h.1]; simp [runUW]
+        rw [this, hD t r' hmem (n + 1) x]
+        exact stepU env L D g.hasKey n ih t r' hent.2 hent.1 x
+  intro n t r h x
+  exact congrFun (key n t r h) x
+
+/-- Every key of a validated graph resolves to a routine computing its denotation. -/
+theorem graph_keys_unmarshal (env : Env) (L : Leaves) (D : Nat → Ty → Val → R Val) (g : RGraph)
+    (hg : graphOk .u env g = true)
+    (hD : ∀ t r, (t, r) ∈ g → ∀ n x, D n t x = runUW env L D n r x) :
+    ∀ t r, (t, r) ∈ g → ∀ n x, D n t x = um env L n t x := by
+  intro t r hmem n x
+  have hent := (List.all_eq_true.mp hg) (t, r) hmem
+  simp only [Bool.and_eq_true] at hent
+  rw [hD t r hmem n x]
+  exact graph_sound_unmarshal env L D g hg hD n t r hent.2 x
+
+/-- **Routine graphs, marshal side.** -/
+theorem graph_sound_marshal (env : Env) (L : Leaves) (D : Nat → Ty → Val → R Val) (g : RGraph)
+    (hg : graphOk .m env g = true)
+    (hD : ∀ t r, (t, r) ∈ g → ∀ n x, D n t x = runMW env L D n r x) :
+    ∀ n t r, adequate .m g.hasKey env t r = true → ∀ x, runMW env L D n r x = mar env L n t x := by
+  have key : ∀ n t r, adequate .m g.hasKey env t r = true → runMW env L D n r = mar env L n t := by
+    intro n
+    induction n with
+    | zero => intro t r _; funext x; simp [runMW, mar]
+    | succ n ih =>
+      intro t r h
+      funext x
+      cases hd : r.isDelayed with
+      | false => exact stepM env L D g.hasKey n ih t r h hd x
+      | true =>
+        cases r <;> simp [Routine.isDelayed] at hd
+        rename_i t'
+        simp only [adequate, Bool.and_eq_true] at h
+        obtain ⟨r', hmem⟩ := hasKey_mem h.2
+        have hent := (List.all_eq_true.mp hg) (t, r') hmem
+        simp only [Bool.and_eq_true, Bool.not_eq_eq_eq_not, Bool.not_true] at hent
+        have : runMW env L D (n + 1) (.delayed t') x = D (n + 1) t x := by
+          rw [← tyBeq_eq _ _ h.1]; simp [runMW]
+        rw [this, hD t r' hmem (n + 1) x]
+        exact stepM env L D g.hasKey n ih t r' hent.2 hent.1 x
+  intro n t r h x
+  exact congrFun (key n t r h) x
+
+/-! ### C05 read on the denotation: one lemma per composite constructor -/
+
+/-- Subscripted collection: every element by the routine of the element annotation. -/
+theorem denote_compositional_coll (env : Env) (L : Leaves) (n : Nat) (k : Coll) (e : Ty) (x : Val) :
+    um env L (n + 1) (.coll k e) x =
+      ((load env L x).bind (itervalues env)).bind (fun xs =>
+        (mapR (um env L n e) xs).bind (fun ys => .ok (mkColl k ys))) := by
+  simp only [um]
+  cases (load env L x).bind (itervalues env) with
+  | error _ => rfl
+  | ok xs => simp only [Except.bind]; cases mapR (um env L n e) xs <;> rfl
+
+/-- Fixed tuple: position `i` by the routine of the `i`-th annotation. -/
+theorem denote_compositional_tuple (env : Env) (L : Leaves) (n : Nat) (es : List Ty) (x : Val) :
+    um env L (n + 1) (.tuple es) x =
+      ((load env L x).bind (itervalues env)).bind (fun xs =>
+        (zipR (es.map (um env L n)) xs).bind (fun ys =>
+          if ys.length == es.length then .ok (.tuple ys) else .error .value)) := by
+  simp only [um]
+  cases (load env L x).bind (itervalues env) with
+  | error _ => rfl
+  | ok xs => simp only [Except.bind]; cases zipR (es.map (um env L n)) xs <;> rfl
+
+/-- Mapping: keys by the key annotation's routine, values by the value annotation's. -/
+theorem denote_compositional_dict (env : Env) (L : Leaves) (n : Nat) (k v : Ty) (x : Val) :
+    um env L (n + 1) (.dict k v) x =
+      ((load env L x).bind (iteritems env)).bind (fun items =>
+        (mapR (convPair (um env L n k) (um env L n v)) items).bind (fun kvs => .ok (.dict kvs))) := by
+  simp only [um]
+  cases (load env L x).bind (iteritems env) with
+  | error _ => rfl
+  | ok xs => simp only [Except.bind]; cases mapR (convPair (um env L n k) (um env L n v)) xs <;> rfl
+
+/-- Union: the members' own routines, None first. -/
+theorem denote_compositional_union (env : Env) (L : Leaves) (n : Nat) (ms : List Ty) (x : Val) :
+    um env L (n + 1) (.union ms) x = firstOk ((unionOrder ms).map (um env L n)) x := rfl
+
+/-- Structured class: the comprehension over the class's OWN field table. -/
+theorem denote_compositional_struct (env : Env) (L : Leaves) (n : Nat) (c : Nat) (x : Val) :
+    um env L (n + 1) (.cls c) x =
+      (load env L x).bind (umStruct env c (convOf (fieldsOf env c) (um env L n))) := rfl
+
+/-- … in which field `name : t` of class `c` is converted by `um t` — the routine of the field's own
+    annotation, whatever other classes call their fields and whatever they are called themselves. -/
+theorem denote_struct_field (env : Env) (L : Leaves) (n : Nat) (c : Nat) (name : Str) (t : Ty)
+    (hnd : nodupStr ((fieldsOf env c).map Prod.fst) = true) (hmem : (name, t) ∈ fieldsOf env c) :
+    convOf (fieldsOf env c) (um env L n) name = some (um env L n t) :=
+  convOf_mem (um env L n) (fieldsOf env c) hnd name t hmem
+
+theorem denote_compositional_coll_marshal (env : Env) (L : Leaves) (n : Nat) (k : Coll) (e : Ty) (x : Val) :
+    mar env L (n + 1) (.coll k e) x =
+      (itervalues env x).bind (fun xs => (mapR (mar env L n e) xs).bind (fun ys => .ok (.list ys))) := by
+  simp only [mar]
+  cases itervalues env x with
+  | error _ => rfl
+  | ok xs => simp only [Except.bind]; cases mapR (mar env L n e) xs <;> rfl
+
+theorem denote_compositional_tuple_marshal (env : Env) (L : Leaves) (n : Nat) (es : List Ty) (x : Val) :
+    mar env L (n + 1) (.tuple es) x =
+      (itervalues env x).bind (fun xs => (zipR (es.map (mar env L n)) xs).bind (fun ys => .ok (.list ys))) := by
+  simp only [mar]
+  cases itervalues env x with
+  | error _ => rfl
+  | ok xs => simp only [Except.bind]; cases zipR (es.map (mar env L n)) xs <;> rfl
+
+theorem denote_compositional_dict_marshal (env : Env) (L : Leaves) (n : Nat) (k v : Ty) (x : Val) :
+    mar env L (n + 1) (.dict k v) x =
+      (iteritems env x).bind (fun items =>
+        (mapR (convPair (mar env L n k) (mar env L n v)) items).bind (fun kvs => .ok (.dict kvs))) := by
+  simp only [mar]
+  cases iteritems env x with
+  | error _ => rfl
+  | ok xs => simp only [Except.bind]; cases mapR (convPair (mar env L n k) (mar env L n v)) xs <;> rfl
+
+theorem denote_compositional_union_marshal (env : Env) (L : Leaves) (n : Nat) (ms : List Ty) (x : Val) :
+    mar env L (n + 1) (.union ms) x = marUnion ms (mar env L n) x := rfl
+
+theorem denote_compositional_struct_marshal (env : Env) (L : Leaves) (n : Nat) (c : Nat) (ci : ClassInfo)
+    (hc : env.cls c = some ci) (x : Val) :
+    mar env L (n + 1) (.cls c) x =
+      (iteritems env x).bind (fun items =>
+        (buildKwargs (convOf ci.fields (mar env L n)) items []).bind (fun kw =>
+          .ok (.dict (kw.map fun p => (.str p.1, p.2))))) := by
+  simp only [mar, hc]
+  cases iteritems env x with
+  | error _ => rfl
+  | ok xs => simp only [Except.bind]; cases buildKwargs (convOf ci.fields (mar env L n)) xs [] <;> rfl
+
+/-! ### All documented source shapes convert alike -/
+
+theorem load_nontext (env : Env) (L : Leaves) (x : Val) (h : isText env x = false) : load env L x = .ok x := by
+  cases x <;> simp [isText] at h <;> simp [load, h]
+
+/-- A structured class reads its source through `iteritems` only: a mapping, an iterable of pairs,
+    an instance of another structured class — whatever delivers the same items gives the same result. -/
+theorem struct_sources_alike (env : Env) (L : Leaves) (n : Nat) (c : Nat) (x y : Val)
+    (hx : isText env x = false) (hy : isText env y = false) (h : iteritems env x = iteritems env y) :
+    um env L (n + 1) (.cls c) x = um env L (n + 1) (.cls c) y := by
+  simp only [um, load_nontext env L x hx, load_nontext env L y hy, Except.bind, umStruct, h]
+
+/-- JSON (or Python-literal) text converts like the value it decodes to. -/
+theorem struct_text_alike (env : Env) (L : Leaves) (n : Nat) (c : Nat) (s : Str) (d : Val)
+    (hs : L.sl s = .ok d) (hd : isText env d = false) :
+    um env L (n + 1) (.cls c) (.str s) = um env L (n + 1) (.cls c) d := by
+  have h1 : load env L (.str s) = .ok d := by simp only [load, hs]
+  simp only [um, h1, load_nontext env L d hd]
+
+/-- The same for marshalling: any two sources delivering the same items marshal alike. -/
+theorem struct_sources_alike_marshal (env : Env) (L : Leaves) (n : Nat) (c : Nat) (x y : Val)
+    (h : iteritems env x = iteritems env y) :
+    mar env L (n + 1) (.cls c) x = mar env L (n + 1) (.cls c) y := by
+  simp only [mar, h]
+
+
+/-- Items the struct comprehension looks at: everything but `(name, _)` with `name` not a field. -/
+def relevant (conv : Str → Option (Val → R Val)) (it : Item) : Bool :=
+  match it with
+  | .ok (.str name, _) => (conv name).isSome
+  | _ => true
+
+theorem buildKwargs_relevant (conv : Str → Option (Val → R Val)) :
+    ∀ (items : List Item) (acc : List (Str × Val)),
+      buildKwargs conv (items.filter (relevant conv)) acc = buildKwargs conv items acc := by
+  intro items
+  induction items with
+  | nil => intro acc; rfl
+  | cons it rest ih =>
+    intro acc
+    cases it with
+    | error e => simp [List.filter, relevant, buildKwargs]
+    | ok kv =>
+      obtain ⟨k, v⟩ := kv
+      cases k with
+      | str name =>
+        cases hc : conv name with
+        | none => simp [List.filter, relevant, buildKwargs, hc, hashable, ih]
+        | some f =>
+          simp only [List.filter, relevant, hc, Option.isSome_some, buildKwargs, hashable, Bool.not_true,
+            Bool.false_eq_true, if_false]
+          cases f v with
+          | error e => rfl
+          | ok r => exact ih _
+      | _ =>
+        simp only [List.filter, relevant, buildKwargs]
+        split <;> first | rfl | exact ih _
+
+/-- An instance of ANOTHER structured class with overlapping fields (or a mapping with extra keys)
+    converts like the mapping of the overlapping fields alone: items under names the target class
+    does not declare never reach a routine. -/
+theorem struct_sources_alike_overlap (env : Env) (L : Leaves) (n : Nat) (c : Nat) (x y : Val)
+    (ix iy : List Item) (hx : isText env x = false) (hy : isText env y = false)
+    (hix : iteritems env x = .ok ix) (hiy : iteritems env y = .ok iy)
+    (h : ix.filter (relevant (convOf (fieldsOf env c) (um env L n)))
+       = iy.filter (relevant (convOf (fieldsOf env c) (um env L n)))) :
+    um env L (n + 1) (.cls c) x = um env L (n + 1) (.cls c) y := by
+  simp only [um, load_nontext env L x hx, load_nontext env L y hy, Except.bind, umStruct, hix, hiy]
+  rw [← buildKwargs_relevant _ ix, ← buildKwargs_relevant _ iy, h]
+
+/-! ### Non-vacuity: concrete trees, accepted and rejected -/
+
+/-- `@dataclass class Node: val: int; nxt: Optional[Node] = None`,
+    `class Other(TypedDict): val: str` (the same field name with another type),
+    `@dataclass class Foreign: val: int; extra: str`. -/
+def exEnv : Env := [
+  { flavour := .dataclass, fields := [("val".toList, .scalar .int), ("nxt".toList, .union [.cls 0, .none])],
+    required := ["val".toList], defaults := [("nxt".toList, .none)] },
+  { flavour := .typeddict, fields := [("val".toList, .scalar .str)], required := ["val".toList] },
+  { flavour := .dataclass, fields := [("val".toList, .scalar .int), ("extra".toList, .scalar .str)],
+    required := ["val".toList, "extra".toList] }]
+
+/-- The tree `typelib.unmarshaller(Node)` builds: the recursive member is a `Delayed` proxy. -/
+def exTree : Routine :=
+  .struct 0 [("val".toList, .leaf .int), ("nxt".toList, .union false [.none, .delayed (.cls 0)])] []
+
+example : adequateU exEnv (.cls 0) exTree = true := by decide
+example : graphOk .u exEnv [(.cls 0, exTree)] = true := by decide
+/-- Hence, on every input: -/
+example : ∀ n x, runU exEnv (pyLeaves exEnv) n exTree x = um exEnv (pyLeaves exEnv) n (.cls 0) x :=
+  adequate_sound_unmarshal exEnv _ _ _ (by decide)
+
+/-- and evaluated on one (two levels of the recursive class, the member given as text): -/
+example : resEq (runU exEnv (pyLeaves exEnv) 8 exTree
+      (.dict [(.str "val".toList, .str "1".toList), (.str "nxt".toList, .dict [(.str "val".toList, .int 2)])]))
+    (.ok (.inst 0 [("val".toList, .int 1), ("nxt".toList, .inst 0 [("val".toList, .int 2), ("nxt".toList, .none)])])) = true := by
+  decide
+
+/-- Name coincidence: `Other.val : str` served by the routine of `Node.val : int` is rejected. -/
+example : adequateU exEnv (.cls 1) (.struct 1 [("val".toList, .leaf .int)] ["val".toList]) = false := by decide
+example : adequateU exEnv (.cls 1) (.struct 1 [("val".toList, .leaf .str)] ["val".toList]) = true := by decide
+/-- A TypedDict routine that forgot its required keys is rejected. -/
+example : adequateU exEnv (.cls 1) (.struct 1 [("val".toList, .leaf .str)] []) = false := by decide
+/-- `self.context[self.stack[0]]` at every position of `tuple[int, str]` is rejected. -/
+example : adequateU [] (.tuple [.scalar .int, .scalar .str]) (.tuple [.leaf .int, .leaf .int]) = false := by decide
+/-- Member order: the unmarshaller tries None first, the marshaller holds the non-None members only. -/
+example : adequateU [] (.union [.scalar .int, .none, .scalar .str]) (.union false [.none, .leaf .int, .leaf .str]) = true := by decide
+example : adequateU [] (.union [.scalar .int, .none, .scalar .str]) (.union false [.leaf .str, .leaf .int, .none]) = false := by decide
+example : adequateM [] (.union [.scalar .int, .none, .scalar .str]) (.union true [.leaf .int, .leaf .str]) = true := by decide
+example : adequateM [] (.union [.scalar .int, .none, .scalar .str]) (.union false [.leaf .int, .none, .leaf .str]) = false := by decide
+/-- A `Delayed` member that resolves to something else than the member annotation
+    (`Delayed(ForwardRef('list'))` for a `list[Node]` member) is rejected; the right target is accepted,
+    also through an alias (`erase`). -/
+example : adequateU exEnv (.coll .list (.cls 0)) (.delayed (.cls 2)) = false := by decide
+example : adequateU exEnv (.coll .list (.cls 0)) (.coll .list (.delayed (.wrap .alias (.cls 0)))) = true := by decide
+/-- A graph whose delayed target has no validated tree of its own is rejected. -/
+example : graphOk .u exEnv [(.coll .list (.cls 0), .coll .list (.delayed (.cls 0)))] = false := by decide
+example : graphOk .u exEnv [(.coll .list (.cls 0), .coll .list (.delayed (.cls 0))), (.cls 0, exTree)] = true := by decide
+
+/-- Source shapes: a mapping, a list of pairs and an instance of another class deliver the items of
+    `Node` alike (the hypotheses of `struct_sources_alike` / `_overlap` hold on them). -/
+example : iteritems exEnv (.dict [(.str "val".toList, .int 1)]) = iteritems exEnv (.list [.tuple [.str "val".toList, .int 1]]) := rfl
+example : um exEnv (pyLeaves exEnv) 4 (.cls 0) (.inst 2 [("val".toList, .int 1), ("extra".toList, .str "x".toList)])
+    = um exEnv (pyLeaves exEnv) 4 (.cls 0) (.dict [(.str "val".toList, .int 1)]) :=
+  struct_sources_alike_overlap exEnv _ 3 0 _ _ _ _ rfl rfl rfl rfl rfl
+
+/-! ### The leaf classes are the ones the live dispatch tables select -/
+
+theorem leaf_classes_unmarshal :
+    allScalars.all (fun s => Dispatch.expectedU.lookup (scalarKey s) == some (leafClassU s)) = true := by decide
+
+theorem leaf_classes_marshal :
+    allScalars.all (fun s => Dispatch.expectedM.lookup (scalarKey s) == some (leafClassM s)) = true := by decide
 
 
 end Typelib.C05
